@@ -212,6 +212,9 @@ func (v *version) Validate() error {
 	}
 
 	for _, k := range v.keys {
+		if k == nil {
+			return fmt.Errorf("nil key")
+		}
 		if err := k.Validate(); err != nil {
 			return errors.Wrap(err, "invalid key")
 		}
